@@ -71,7 +71,8 @@ def run(run):
     # ---------------------------------------------------------------- total / average power
     for cname, mk, total in (("TotalPowerConstraint", lambda t: K.TotalPowerConstraint(t), True), ("AveragePowerConstraint", lambda t: K.AveragePowerConstraint(t), False)):
         ci = 0
-        for target in targets:
+        for target_obj in list(targets) + [2, torch.tensor(4.0)]:          # the limit as float, Python int and tensor
+            target = float(target_obj)
             for cplx in (False, True):
                 for shape in shapes:
                     n = 1
@@ -90,7 +91,9 @@ def run(run):
                             if ci % 4 == 0:
                                 x[-1] = 0          # a zero item takes its own code path
                         cfg = {"constraint": cname, "target": target, "complex": cplx, "ndim": len(shape), "batch": shape[0] if len(shape) > 1 else 0, "family": fname, "scale": sc}
-                        c = mk(target)
+                        if not isinstance(target_obj, float):
+                            cfg["target_type"] = type(target_obj).__name__
+                        c = mk(target_obj)
                         try:
                             y = c(x)
                             y2 = c(y)
@@ -162,7 +165,7 @@ def run(run):
                 x = (fams[fname] * rng.choice(scales)).reshape(shape)
                 if fname == "ramp4" and len(shape) > 1 and shape[0] > 1:      # one full ramp per batch item
                     x = (torch.stack([families(rng, n // shape[0], cplx)["ramp4"] for _ in range(shape[0])]) * rng.choice(scales)).reshape(shape)
-                for lim in (0.05, 1.0, 30.0):
+                for lim in (0.05, 1.0, 30.0, 2):
                     cfg = {"constraint": "PeakAmplitudeConstraint", "complex": cplx, "ndim": len(shape), "family": fname, "limit": lim}
                     try:
                         y = K.PeakAmplitudeConstraint(lim)(x)
@@ -170,7 +173,7 @@ def run(run):
                     except Exception as ex:
                         add({"ev": "Peak", "raised": True, "error": repr(ex)[:100]}, "PeakAmplitudeConstraint", cfg)
                     run.case(("peak", cplx, shape, fname, lim), nontrivial=True)
-                for lim in (((1.2, 2.0, 4.0) if fname == "ramp4" else (2.0, 4.0)) if quick else (1.2, 1.5, 2.0, 4.0, 8.0)):
+                for lim in (((1.2, 2.0, 4.0) if fname == "ramp4" else (2.0, 4.0, 3)) if quick else (1.2, 1.5, 2.0, 4.0, 8.0, 3)):
                     cfg = {"constraint": "PAPRConstraint", "complex": cplx, "ndim": len(shape), "family": fname, "limit": lim}
                     try:
                         y = K.PAPRConstraint(max_papr=lim)(x)
